@@ -27,7 +27,8 @@ Log2Floor(bn) == CHOOSE bk \in 0..16 : Pow2(bk) <= bn /\ bn < Pow2(bk + 1)
 MipCount(bw, bh, bmips) == IF bmips THEN Log2Floor(BMax(bw, bh)) + 1 ELSE 1
 Dim(bw, bh, bi) == <<BMax(1, bw \div Pow2(bi)), BMax(1, bh \div Pow2(bi))>>
 Chain(bw, bh, bmips) == [bi \in 1..MipCount(bw, bh, bmips) |-> Dim(bw, bh, bi - 1)]
-\* named deviation: convert/mipmap.rs:generate_mipmaps stops as soon as ONE side has reached 1
+\* named deviation (before 61197c7): convert/mipmap.rs:generate_mipmaps stopped as soon as ONE side had reached 1;
+\* the as-coded chain since then is Chain / MipCount
 CodeMipCount(bw, bh, bmips) == IF bmips THEN BMin(16, Log2Floor(BMin(bw, bh)) + 1) ELSE 1
 
 \* ---- level sizes --------------------------------------------------------------------------------
@@ -78,7 +79,7 @@ SizeOf(bs, bd) == IF bs.enc = "jpeg" THEN JpegSize(bd) ELSE LevelBytes(bs.enc, b
 
 BStart(bs) == /\ vshape = bs /\ vimgs = <<>> /\ vcur = 0 /\ vloc = <<>> /\ vext = <<>> /\ vpc = "convert" /\ vdev = {} /\ vgot = <<>>
 
-\* convert: produce the chain (ideal), or what generate_mipmaps produces (deviation)
+\* convert: produce the chain (as coded since 61197c7), or what generate_mipmaps produced before (deviation)
 C_Chain == /\ vpc = "convert" /\ vpc' = "header"
            /\ vimgs' = LET bch == Chain(vshape.w, vshape.h, vshape.mips) IN [bi \in 1..Len(bch) |-> SizeOf(vshape, bch[bi])]
            /\ UNCHANGED <<vshape, vcur, vloc, vext, vdev, vgot>>
